@@ -128,6 +128,20 @@ def _check(c):
                                                'impl': repr(iv)[:600], 'model': repr(m)[:600]}, no_input=True)
     c.sample({'op': 'resolve', 'name': 'km', 'impl': repr(impl_resolve(c, ctx, ['km'])[0])[:300]})
 
+    # ---- 1b. configurations: decimal separator style x C/F mode.  The resolver's records must not depend
+    #      on the separator style, and `1 <name>`, singular == plural, the families mean the same everywhere
+    cfg_names = names if c.tier == 'thorough' else r.sample(names, 400) + [n for n in ('inch', 'lb', 'pound', 'EUR', 'USD', 'gallon', 'calorie', 'mile', 'C', 'F', 'mC', 'sqdm') if n in names]
+    rec = {}
+    for nm, cx in (('dot', U.CTX_DEFAULT), ('comma', U.CTX_COMMA), ('dot-coulomb', [1, 1, []]), ('comma-coulomb', [1, 1, [], 1])):
+        rec[nm] = c.impl('units', [sx([Sym('resolve'), cx, n]) for n in cfg_names])
+    for n, a, b, d, e in zip(cfg_names, rec['dot'], rec['comma'], rec['dot-coulomb'], rec['comma-coulomb']):
+        c.note_case('cfg-resolve:' + n, True, 'config-resolver-record')
+        if a != b or d != e or (a != d and n not in ('C', 'F')):
+            c.violation('resolver-depends-on-configuration', {'kind': 'impl-vs-spec', 'ident': n, 'input': '1 ' + n, 'dot': a[:300], 'comma': b[:300],
+                                                              'dot_coulomb': d[:300], 'comma_coulomb': e[:300]})
+    U.config_sweep(c, ['1 ' + n for n in cfg_names] + ['(1 %s) == (1 %s)' % (s_, p_) for g_, s_, p_, d_ in defs if p_ and p_ != s_][:150]
+                   + ['1.5 ' + n for n in cfg_names[:150]], 'name-resolution')
+
     # ---- 2. singular == plural (L2) and the reduced records
     pairs = [(s, p) for g, s, p, d in defs if p and p != s]
     eq = l2(c, ctx, ['(1 %s) == (1 %s)' % (s, p) for s, p in pairs])
